@@ -7,7 +7,12 @@ package hx
 // VERIF_SEED so that a disagreement replays exactly.
 type Rand struct{ s uint64 }
 
-func NewRand(seed uint64) *Rand { return &Rand{s: seed*0x9E3779B97F4A7C15 + 0x1234567} }
+// NewRand scrambles the seed through one splitmix64 step: without that, the stream of seed k+1
+// would be the stream of seed k shifted by one draw (the state advances by the same constant).
+func NewRand(seed uint64) *Rand {
+	r := &Rand{s: seed*0x9E3779B97F4A7C15 + 0x1234567}
+	return &Rand{s: r.Uint64() ^ 0xD1342543DE82EF95}
+}
 
 func (r *Rand) Uint64() uint64 {
 	r.s += 0x9E3779B97F4A7C15
